@@ -73,15 +73,24 @@ func ZZ_C02_rounds() {
 	}
 	c := fakeapi.New()
 	ds := &datadoghqv1alpha1.ExtendedDaemonSet{ObjectMeta: metav1.ObjectMeta{Name: zzEDSName, Namespace: zzNS, UID: "uid-foo", Annotations: map[string]string{}}}
+	smallPct := nondet.Bool("limitsAsSmallPercentages")
+	// the new template may have been copied from a running pod of a node with a resources override and
+	// still carry that pod's node-hash annotation: pods created from it on nodes without an override
+	// must be recognised as up to date all the same, or they are replaced for ever
+	staleNodeHash := !smallPct && nondet.Bool("newTemplateCarriesStaleNodeHash")
 	tpl := func(id string) corev1.PodTemplateSpec {
-		return corev1.PodTemplateSpec{ObjectMeta: metav1.ObjectMeta{Labels: map[string]string{"app": "agent"}},
+		t := corev1.PodTemplateSpec{ObjectMeta: metav1.ObjectMeta{Labels: map[string]string{"app": "agent"}},
 			Spec: corev1.PodSpec{Containers: []corev1.Container{{Name: "agent", Image: "agent:" + id}}}}
+		if staleNodeHash && id == "B" {
+			t.Annotations = map[string]string{datadoghqv1alpha1.MD5NodeExtendedDaemonSetAnnotationKey: "0123456789abcdef0123456789abcdef"}
+		}
+		return t
 	}
 	ds.Spec.Template = tpl("B")
 	datadoghqv1alpha1.DefaultExtendedDaemonSetSpec(&ds.Spec, datadoghqv1alpha1.ExtendedDaemonSetSpecStrategyCanaryValidationModeAuto)
 	// the rolling-update limits may be percentages that come to less than one node on a small cluster:
 	// they round up ("at least one"), so the roll-out still makes progress
-	if nondet.Bool("limitsAsSmallPercentages") {
+	if smallPct {
 		ten := intstr.FromString("10%")
 		ds.Spec.Strategy.RollingUpdate.SlowStartAdditiveIncrease = &ten
 		ds.Spec.Strategy.RollingUpdate.MaxUnavailable = &ten
